@@ -40,6 +40,8 @@ def load(config="P"):
     else:
         raise ValueError(config)
     pms = importlib.import_module("pyModeS")
+    import warnings
+    warnings.simplefilter("ignore", DeprecationWarning)      # the package re-enables them at import; checks call deprecated aliases on purpose
     f = os.path.realpath(pms.__file__)
     if not f.startswith(os.path.realpath(SRC) + os.sep):
         raise SystemExit("HARNESS-ERROR: pyModeS imported from %s, not from %s" % (f, SRC))
